@@ -4,6 +4,7 @@ mod asmhist;
 mod astrt;
 mod codec;
 mod exec;
+mod hashref;
 mod hints;
 mod mast;
 mod pipeline;
@@ -36,6 +37,7 @@ fn main() {
         "mast-recipe" => mast::mast_recipe(a(2), a(3)),
         "std-run" => stdrun::std_run(a(2), a(3)),
         "asm-rejects" => asmhist::asm_rejects(a(2), a(3)),
+        "hash-ref" => hashref::hash_ref(a(2), a(3)),
         "iter-walk" => trace::iter_walk(a(2), a(3)),
         other => {
             eprintln!("unknown sub-command {other}");
